@@ -184,6 +184,16 @@ fn forged_kbs(a: &Session, hk: Hk) -> Vec<KbItem> {
         add("signed_by_issuer_ed_key", base_hdr.clone(), base_pl.clone(), &keys::issuer_enc(Alg::EdDSA, 0), Algorithm::EdDSA, "issuer", true);
         add("signed_by_attacker_ec_key_alg_ES256", with(&base_hdr, "alg", json!("ES256")), base_pl.clone(), &keys::attacker_enc(false), Algorithm::ES256, "attacker", true);
     }
+    // the attacker's own key offered inside the (unauthenticated) KB-JWT header, labelled with the victim's kid
+    {
+        let atk_ec = json!({"kid": "holder-key", "kty": "EC", "crv": "P-256", "x": "kyDB04ZxsGHno3O_yiYHQI51R30rG8rZNKuCpAEdlYc", "y": "b87tlnGm2cxvQsDdaet6oD5sqFlb1_lVs_1FRET5goM"});
+        let atk_ed = json!({"kid": "holder-key", "kty": "OKP", "crv": "Ed25519", "x": "Ce97fsVdavnykDy55n_IzYMYi94UOXI2GNh7HgpAHwA"});
+        for (lab, jwk, ed) in [("ec", atk_ec, false), ("ed", atk_ed, true)] {
+            let a = if ed { Algorithm::EdDSA } else { Algorithm::ES256 };
+            let hdr = json!({"alg": if ed { "EdDSA" } else { "ES256" }, "typ": "kb+jwt", "kid": "holder-key", "jwk": jwk});
+            add(&format!("attacker_{lab}_key_with_embedded_jwk_header"), hdr, base_pl.clone(), &keys::attacker_enc(ed), a, "attacker", true);
+        }
+    }
     // HMAC keyed with the holder's public key material
     let jwk = hk.jwk_value(0).unwrap();
     for (kn, kb) in [("jwk_text", hk.jwk_str(0).unwrap().as_bytes().to_vec()), ("x_bytes", b64d(jwk["x"].as_str().unwrap()).unwrap())] {
@@ -519,7 +529,7 @@ fn run_world(rep: &Report, hk: Hk, issuer_alg: Alg) {
 
 // ---- aud / nonce string alphabet: honest presentations must be accepted for every (aud, nonce) pair
 fn string_alphabet(rep: &Report) {
-    let strs = ["[\"https://v.example\"]", "[\"a\",\"b\"]", "{}", "null", "true", "1", "\"a\"", "a,b", "*", "Https://V.example", " a ", "e\u{301}",
+    let strs = ["[\"https://v.example\"]", "[\"a\",\"b\"]", "{}", "null", "true", "1", "\"a\"", "a,b", "*", "Https://V.example", " a ", "e\u{301}", "https://v.example/caf\u{e9}", "https://v.example/caf%C3%A9",
         "a", "", "https://v.example", "\u{f1}", "xxxxxxxxxxxxxxxxxxxxxxxxxxxxxxxxxxxxxxxxxxxxxxxxxxxxxxxxxxxxxxxx", "a b", "\"", "~", "a.b", "\u{1F600}"];
     let mut items = vec![];
     for a in strs {
@@ -579,6 +589,13 @@ fn string_alphabet(rep: &Report) {
         }
         if !a.is_empty() || !n.is_empty() {
             others.push((String::new(), String::new()));
+        }
+        // the percent-encoded spelling of a string is a different string
+        let pct = |x: &str, upper: bool| -> String { x.bytes().map(|b| if b.is_ascii_alphanumeric() || b"-._~:/".contains(&b) { (b as char).to_string() } else if upper { format!("%{b:02X}") } else { format!("%{b:02x}") }).collect() };
+        for (a2, n2) in [(pct(a, true), n.to_string()), (pct(a, false), n.to_string()), (a.to_string(), pct(n, true))] {
+            if a2 != a || n2 != n {
+                others.push((a2, n2));
+            }
         }
         // case-folded, trimmed and padded variants are different strings
         for (a2, n2) in [(a.to_uppercase(), n.to_string()), (a.to_lowercase(), n.to_string()), (a.to_string(), n.to_uppercase()), (format!(" {a}"), n.to_string()), (a.to_string(), format!("{n} ")), (a.trim().to_string(), n.trim().to_string())] {
